@@ -41,7 +41,10 @@ def energy_atoms(table):
 
 def sweep(tname, table):
     cases, meta = [], []
-    default = core.Element.neutron
+    # the "no data" placeholder: a class attribute today; any atom of Z = 0 serves it otherwise
+    default = core.Element.__dict__.get("neutron", None)
+    if default is None or isinstance(default, property):
+        default = getattr(table[0], "neutron", None)
     n_rec = 0
     for z, a, atom in atoms_of(table):
         cases.append("(CAtom %s %s [%s])" % (zlit(z), zlit(a), "; ".join(enc(v) for v in observe(atom))))
@@ -297,6 +300,25 @@ def main():
                                             what="the table text cannot be re-read row by row: %s: %s"
                                                  % (type(e).__name__, str(e)[:200])))
         out["lu_natural_ok"].append(attempt(lu_natural_note, table) is True)
+    # history: nuclides registered AFTER the neutron data were loaded are "atoms not in the table" too
+    # (run last: it adds isotopes to the tables of this harness process)
+    for tname, table in tables:
+        for sym in ("H", "Li", "O", "Gd", "Fe", "Po"):
+            el = getattr(table, sym)
+            A = (max(el.isotopes) if el.isotopes else 200) + 7
+            iso = el.add_isotope(A)
+            n = attempt(getattr, iso, "neutron")
+            has = attempt(lambda: n.has_sld())
+            bc = attempt(getattr, n, "b_c")
+            res = attempt(lambda: nsf.neutron_scattering(((1, iso), (1, table.O)), density=1.0))
+            ok = (not isinstance(n, Exception)) and has is False and bc is None and res == (None, None, None)
+            if not ok:
+                out["direct_fails"].append(dict(
+                    signature="C07:isotope-added-after-load-has-data", table=tname, z=el.number, a=A, atom="%s[%d]" % (sym, A),
+                    what="[%s table] %s.add_isotope(%d) after the neutron table was loaded: has_sld() is %r, b_c is %r, "
+                         "neutron_scattering of its oxide is %r (an atom that is not in the table must report no SLD)"
+                         % (tname, sym, A, has, bc, res)))
+                break
     json.dump(out, sys.stdout)
 
 
